@@ -93,6 +93,14 @@ func VerifC07_submit() {
 	}
 	h := ndInt64("height")
 	ndAssume(h >= 1 && h < 1<<40)
+	// an older round of the same query may linger (expired, untipped, its reports waiting for this block's aggregation)
+	lingering := hasRound && ndBool("olderRoundLingers")
+	if lingering {
+		if err := k.Query.Set(ctx, collections.Join(qid, uint64(3)), types.QueryMeta{Id: 3, Amount: math.ZeroInt(), Expiration: uint64(h), RegistrySpecBlockWindow: 10, QueryData: qd, QueryType: "SpotPrice", HasRevealedReports: true}); err != nil {
+			panic(err)
+		}
+		ndAssume(exp > uint64(h)) // the newer round is the open one
+	}
 	bctx := ctx.WithBlockHeight(h)
 	reporter := ndByteSlice("reporter", 20)
 	ms := NewMsgServerImpl(k)
@@ -102,6 +110,11 @@ func VerifC07_submit() {
 		return
 	}
 	ndReach("accepted")
+	if lingering {
+		_, oerr := k.Reports.Get(ctx, collections.Join3(qid, reporter, uint64(3)))
+		older, _ := k.Query.Get(ctx, collections.Join(qid, uint64(3)))
+		ndAssert(oerr != nil && older.Expiration == uint64(h), "a-report-never-enters-an-older-round-that-is-closing")
+	}
 	ndAssert(kind != 2, "withdrawal-queries-are-never-reportable")
 	ndAssert(!jailed, "jailed-reporter-cannot-report")
 	ndAssert(rep.stake.GTE(minStake), "reporter-holds-at-least-the-minimum-stake")
